@@ -39,6 +39,9 @@ manifest = {
         {"name": "parse", "path": "harness/drivers/parse.rs", "serves_properties": ["C14"], "kind_free_text": "reference parser differential"},
         {"name": "hash", "path": "harness/drivers/hashd.rs", "serves_properties": ["C15"], "kind_free_text": "hash/codec differential with hashlib offline oracle"},
         {"name": "codec", "path": "harness/drivers/codec.rs", "serves_properties": ["C16"], "kind_free_text": "state-file round trip and damage injection"},
+        {"name": "server", "path": "pytools/server_check.py", "serves_properties": ["C19"], "kind_free_text": "real binary `ruler serve` + raw-socket client"},
+        {"name": "realfs", "path": "pytools/clean_real.py", "serves_properties": ["C10"], "kind_free_text": "real binary on the real file system with shell commands"},
+        {"name": "strace", "path": "pytools/strace_twins.py", "serves_properties": ["C06"], "kind_free_text": "real binary under strace rename-delay injection"},
         {"name": "sort", "path": "harness/drivers/sortd.rs", "serves_properties": ["C12"], "kind_free_text": "exhaustive + random differential check of the sorter against a set-based reference"},
     ],
     "checks": checks,
